@@ -55,7 +55,7 @@ class HarnessError(Exception):
 # changes the *content* of a case would silently turn a regression replay into
 # another case.  Replay files carry the epoch they were written in; decisions
 # introduced with a later epoch are skipped when an older file is replayed.
-GENERATOR_EPOCH = 3
+GENERATOR_EPOCH = 4
 
 
 class _DrawBase:
